@@ -300,9 +300,16 @@ impl<'a> Case<'a> {
             }
             1 => {
                 let i = self.rng.below(n);
-                let seg = format!("p{}", self.uid());
                 let (e, m) = self.pool.remove(i);
                 let mut m = m;
+                // segments are unique most of the time (a leaf's path then identifies its history); now and
+                // then a segment repeats the one in front of it or comes from a pool of two: a field `a`
+                // nested in a field `a` is a path `a/a`
+                let seg = match self.rng.below(8) {
+                    0 | 1 => m.locs_mut().first().cloned().unwrap_or_else(|| "a".to_string()),
+                    2 => (*self.rng.pick(&["a", "b"])).to_string(),
+                    _ => format!("p{}", self.uid()),
+                };
                 m.locs_mut().insert(0, seg.clone());
                 self.hist.push(format!("#{i}.at({seg})"));
                 self.pool.push((e.at(&seg), m));
